@@ -35,6 +35,10 @@ func runC09(c *Ctx, r *Report) {
 	importRules(c, r, "C04", []string{"R-C04.1", "R-C04.2"}, "R-C09.12")
 	r.Doc("R-C09.13", "the codec objects the fetch workers share while rebuilding a log are concurrency-safe (adopted from C18: a stateful unmarshaller shared by workers mixes up or drops the opened links, and the rebuilt log misses what was only reachable through them)")
 	importRules(c, r, "C18", []string{"R-C18.7"}, "R-C09.13", 0)
+	r.Doc("R-C09.14", "whether a stored block decodes depends on the block and the codec only: nothing on the decode path reads first-party package-level state that the process can change (a registry, a cache, a switch) — a log rebuilt in another process, or later in the same one, must hold the same entries")
+	decodeReadsNoProcessState(c, r, "R-C09.14")
+	r.Doc("R-C09.15", "the fetch worker gives up a fetched entry only because the fetch failed or by its own bookkeeping: no condition in the worker reads the entry's payload or additional data (whatever Append wrote must load again)")
+	workerKeepsWhatItFetched(c, r, "R-C09.15")
 	r.Doc("R-C09.8", "the entry reader refuses a block only when reading or decoding it failed: no extra acceptance test on the decoded entry (whatever Append wrote must load again)")
 	// the heads of the rebuilt log: fetched entries whose hash equals a manifest head
 	{
